@@ -34,10 +34,15 @@ def functor_of(case, dims, arrays):
     ob = {rigid.Ty(n): (tensor.Dim(v) if case["as_dim"] else v)
           for n, v in dims.items()}
     ar = {}
+    words = {(b["name"], specs.skey_ty(b["cod"] if b.get("dag") else b["dom"]),
+              specs.skey_ty(b["dom"] if b.get("dag") else b["cod"]))
+             for b, _ in case["d"]["layers"] if b.get("word")}
     for (name, dom, cod), arr in arrays.items():
-        box = rigid.Box(name, specs.ty("rigid", [list(x) for x in dom]),
-                        specs.ty("rigid", [list(x) for x in cod]))
-        ar[box] = arr.tolist() if case["lists"] else arr
+        for word in {False, (name, dom, cod) in words}:
+            box = specs.box("rigid", {
+                "k": "box", "name": name, "dom": [list(x) for x in dom],
+                "cod": [list(x) for x in cod], "dag": False, "word": word})
+            ar[box] = arr.tolist() if case["lists"] else arr
     if case["callable"]:
         ob_d, ar_d = ob, ar
         return tensor.Functor(lambda t: ob_d[t], lambda b: ar_d[b])
@@ -186,6 +191,115 @@ def check_snaky(case):
         (len(d) - len(nf)) // 2)], show=common.show(d, 200))
 
 
+@st.composite
+def multi_axis_cases(draw, tier):
+    """ Atomic types sent to dimensions with 0-2 axes (no adjoints, no cups or
+    caps: the functor documents self-dual single dimensions for those). """
+    spec = draw(gen.diagrams("rigid", max_boxes=5, max_width=4, min_boxes=1,
+                             zmax=0, kinds=("box", "dagger", "swap", "swap")))
+    names = sorted({n for sc in specs.scans(spec) for n, _ in sc} | {
+        b[k][0] for b, _ in spec["layers"] for k in ("l", "r") if k in b})
+    obdims = {n: draw(st.lists(st.integers(2, 3), min_size=0, max_size=2))
+              for n in names}
+    gens = {}
+    for b, _ in spec["layers"]:
+        if b["k"] == "box":
+            dom, cod = (b["cod"], b["dom"]) if b.get("dag")\
+                else (b["dom"], b["cod"])
+            gens[(b["name"], specs.skey_ty(dom), specs.skey_ty(cod))] = None
+    ar = []
+    for (name, dom, cod) in gens:
+        size = 1
+        for n, _ in dom + cod:
+            for d in obdims[n]:
+                size *= d
+        if size > 400:
+            size = 0
+        vals = draw(st.lists(st.integers(-2, 2), min_size=2 * size,
+                             max_size=2 * size))
+        ar.append({"name": name, "dom": [list(x) for x in dom],
+                   "cod": [list(x) for x in cod], "vals": vals})
+    return {"d": spec, "obdims": obdims, "ar": ar}
+
+
+def unique_name(b):
+    """ Generators with different types may expand to the same axes. """
+    dom, cod = (b["cod"], b["dom"]) if b.get("dag") else (b["dom"], b["cod"])
+    return "{}:{}->{}".format(b["name"], dom, cod)
+
+
+def expand(spec, obdims):
+    """ The spec with every wire replaced by one wire per axis of its image;
+    swaps become block swaps written as adjacent transpositions. """
+    def wires(t):
+        return [["{}#{}".format(n, k), 0] for n, _ in t
+                for k in range(len(obdims[n]))]
+    layers = []
+    for (b, off), scan in zip(spec["layers"], specs.scans(spec)):
+        base = len(wires(scan[:off]))
+        if b["k"] == "box":
+            layers.append([dict(b, name=unique_name(b), dom=wires(b["dom"]),
+                                cod=wires(b["cod"])), base])
+        else:
+            left, right = wires([b["l"]]), wires([b["r"]])
+            cur = left + right
+            for idx in reversed(range(len(left))):
+                for step in range(len(right)):
+                    pos = idx + step
+                    layers.append([{"k": "swap", "l": cur[pos],
+                                    "r": cur[pos + 1]}, base + pos])
+                    cur[pos], cur[pos + 1] = cur[pos + 1], cur[pos]
+    return {"cls": "rigid", "dom": wires(spec["dom"]), "layers": layers}
+
+
+def check_multi_axis(case):
+    from discopy import rigid, tensor
+    spec, obdims = case["d"], case["obdims"]
+    if any(not g["vals"] for g in case["ar"]) and case["ar"]:
+        sizes = [len(g["vals"]) for g in case["ar"]]
+        if 0 in sizes:
+            return dict(nt=False, labels=["too-large"])
+    d = specs.build(spec)
+    dims = {"{}#{}".format(n, k): v for n, ds in obdims.items()
+            for k, v in enumerate(ds)}
+
+    def wires(t):
+        return [["{}#{}".format(n, k), 0] for n, _ in t
+                for k in range(len(obdims[n]))]
+    arrays, ar = {}, {}
+    for g in case["ar"]:
+        shape = [dims[w] for w, _ in wires(g["dom"]) + wires(g["cod"])]
+        arr = specs.cplx(g["vals"], shape)
+        arrays[(unique_name(dict(g, dag=False)),
+                specs.skey_ty(wires(g["dom"])),
+                specs.skey_ty(wires(g["cod"])))] = arr
+        for word in (False, True):
+            box = specs.box("rigid", {
+                "k": "box", "name": g["name"], "dom": g["dom"],
+                "cod": g["cod"], "dag": False, "word": word})
+            ar[box] = arr
+    ob = {rigid.Ty(n): tensor.Dim(*ds) for n, ds in obdims.items()}
+    out = tensor.Functor(ob, ar)(d)
+    big = expand(spec, obdims)
+    ref = specs.ref_eval(big, dims, arrays)
+    exp_dom = [dims[w] for w, _ in big["dom"]]
+    exp_cod = [dims[w] for w, _ in specs.spec_cod(big)]
+    require(list(out.dom) == exp_dom and list(out.cod) == exp_cod,
+            "C09:multi-axis:types", lambda: "{} -> {} expected {} -> {}"
+            .format(out.dom, out.cod, exp_dom, exp_cod))
+    got = np.asarray(out.array)
+    require(got.size == ref.size and np.array_equal(
+        got.reshape(ref.shape), ref), "C09:multi-axis-functor",
+        lambda: "{} with {}: got {} expected {}".format(
+            common.show(d), obdims, got.flatten().tolist(),
+            ref.flatten().tolist())[:1500])
+    swaps = [b for b, _ in spec["layers"] if b["k"] == "swap"]
+    wide = any(len(obdims[b["l"][0]]) >= 2 or len(obdims[b["r"][0]]) >= 2
+               for b in swaps)
+    return dict(nt=wide, labels=["swaps%d" % min(len(swaps), 3)],
+                show="{} with {}".format(common.show(d, 150), obdims))
+
+
 def selftest():
     """ Reference evaluator on a hand-computed diagram. """
     spec = {"cls": "rigid", "dom": [], "layers": [
@@ -206,6 +320,11 @@ core.register("C09", [
     Facet("snaky_invariance", snaky_cases, check_snaky, n_quick=300,
           shards_quick=4, rule="rigid diagrams with inserted zig-zags (C07 "
           "generator): the functor's value is unchanged by normal_form"),
+    Facet("multi_axis", multi_axis_cases, check_multi_axis, n_quick=400,
+          shards_quick=4, rule="boxes, daggered boxes and swaps with atomic "
+          "types sent to dimensions with 0-2 axes; reference evaluation of "
+          "the axis-expanded diagram; non-trivial = a swap over a type with "
+          ">= 2 axes"),
     Facet("tensor_diagrams", tensor_cases, check_tensor, n_quick=500,
           shards_quick=4, rule="tensor diagrams with boxes, daggered boxes, "
           "swaps, spiders, bubbles (elementwise functions) and sums: eval, "
